@@ -88,7 +88,7 @@ type F struct {
 	lemma       map[*ssa.BasicBlock][]Fact // loop-header lemma facts
 	Is32bit     bool
 	phiDepth    int
-	escapeCache map[ssa.Value]bool
+	escapeCache map[string]bool
 	// Summaries: extra facts for the false/true result of a module call (availability guards).
 	CallFacts func(call *ssa.Call, result bool) []Fact
 }
@@ -183,6 +183,29 @@ func (p *F) LinOf(v ssa.Value) Lin {
 				if b.IsConst() {
 					return a.Scale(b.C)
 				}
+				// (sum c_i*x_i + c) * y with y a single atom: distribute into monomial atoms
+				for _, pair := range [][2]Lin{{a, b}, {b, a}} {
+					if y, ok := singleAtom(pair[1]); ok {
+						r := Const(0)
+						r.T[y] += pair[0].C
+						for xa, k := range pair[0].T {
+							m := "mul:" + xa + "*" + y
+							if y < xa {
+								m = "mul:" + y + "*" + xa
+							}
+							if _, known := p.atoms[m]; !known {
+								p.atoms[m] = v
+							}
+							r.T[m] += k
+						}
+						for t, k := range r.T {
+							if k == 0 {
+								delete(r.T, t)
+							}
+						}
+						return r
+					}
+				}
 			}
 		}
 	case *ssa.Convert:
@@ -218,6 +241,18 @@ func (p *F) LinOf(v ssa.Value) Lin {
 		return Atom("v:" + key)
 	}
 	return p.atomFor("v:", v)
+}
+
+func singleAtom(l Lin) (string, bool) {
+	if l.C != 0 || len(l.T) != 1 {
+		return "", false
+	}
+	for a, k := range l.T {
+		if k == 1 && !strings.HasPrefix(a, "mul:") {
+			return a, true
+		}
+	}
+	return "", false
 }
 
 // LenOf returns len(x) as a linear form.
@@ -350,7 +385,7 @@ func (p *F) canonLoad(v ssa.Value) (ssa.Value, string) {
 	if !ok {
 		return nil, ""
 	}
-	if p.escapes(base) {
+	if p.escapes(base, path) {
 		return nil, ""
 	}
 	var exact, overlapping []*ssa.Store
@@ -386,48 +421,80 @@ func (p *F) canonLoad(v ssa.Value) (ssa.Value, string) {
 	return nil, fmt.Sprintf("mem(%s%s)", id(base), path)
 }
 
-// escapes: the base pointer is used other than for field addressing / direct load-store.
-func (p *F) escapes(base ssa.Value) bool {
+// escapes: can anything other than the stores visible in this function change base<path>?
+// The base pointer may be handed to module functions whose bodies (followed two levels deep) do not store
+// into an overlapping field path; any other use (unknown callee, address stored somewhere) counts as escape.
+func (p *F) escapes(base ssa.Value, path string) bool {
 	if p.escapeCache == nil {
-		p.escapeCache = map[ssa.Value]bool{}
+		p.escapeCache = map[string]bool{}
 	}
-	if r, ok := p.escapeCache[base]; ok {
+	key := id(base) + "|" + path
+	if r, ok := p.escapeCache[key]; ok {
 		return r
 	}
-	res := false
-	var visit func(v ssa.Value)
-	seen := map[ssa.Value]bool{}
-	visit = func(v ssa.Value) {
-		if seen[v] || res {
-			return
-		}
-		seen[v] = true
-		refs := v.Referrers()
-		if refs == nil {
-			return
-		}
-		for _, r := range *refs {
-			switch x := r.(type) {
-			case *ssa.FieldAddr:
-				visit(x)
-			case *ssa.UnOp:
-				// load: fine
-			case *ssa.Store:
-				if x.Val == v {
-					res = true // the address itself is stored somewhere
-				}
-			case *ssa.DebugRef:
-			case *ssa.IndexAddr:
-				// element addressing of an array field: element stores are not tracked as field stores
-				visit(x)
-			default:
-				res = true
+	res := escapesIn(base, "", path, 0)
+	p.escapeCache[key] = res
+	return res
+}
+
+func overlaps(a, b string) bool {
+	return a == b || a == "" || b == "" || strings.HasPrefix(a, b+".") || strings.HasPrefix(b, a+".")
+}
+
+// escapesIn: v denotes &base<prefix>; report whether some use may write base<path> invisibly.
+func escapesIn(v ssa.Value, prefix, path string, depth int) bool {
+	refs := v.Referrers()
+	if refs == nil {
+		return false
+	}
+	for _, r := range *refs {
+		switch x := r.(type) {
+		case *ssa.FieldAddr:
+			np := fmt.Sprintf("%s.%d", prefix, x.Field)
+			if overlaps(np, path) && escapesIn(x, np, path, depth) {
+				return true
 			}
+		case *ssa.IndexAddr:
+			if overlaps(prefix, path) && escapesIn(x, prefix, path, depth) {
+				return true
+			}
+		case *ssa.UnOp, *ssa.DebugRef:
+			// load
+		case *ssa.Store:
+			if x.Val == v {
+				return true // the address itself is stored somewhere
+			}
+			// a direct store through this address is visible to canonLoad (it scans the function's stores) at depth 0,
+			// and is a hidden write when found inside a callee
+			if depth > 0 && overlaps(prefix, path) {
+				return true
+			}
+		case *ssa.Call:
+			callee := x.Call.StaticCallee()
+			if callee == nil || len(callee.Blocks) == 0 || depth >= 2 {
+				return true
+			}
+			hit := false
+			for i, a := range x.Call.Args {
+				if a != v {
+					continue
+				}
+				hit = true
+				if i >= len(callee.Params) {
+					return true
+				}
+				if escapesIn(callee.Params[i], prefix, path, depth+1) {
+					return true
+				}
+			}
+			if !hit {
+				return true
+			}
+		default:
+			return true
 		}
 	}
-	visit(base)
-	p.escapeCache[base] = res
-	return res
+	return false
 }
 
 // ---------------------------------------------------------------------------------------------
